@@ -9,6 +9,7 @@ REPLAYERS = {q: 'replayers/einfo_roundtrip.py' for q in (
     'einfo._Code.__reduce__', 'einfo._Frame.__reduce__', 'einfo._Truncated.__reduce__', 'einfo.Traceback.__reduce__',
     'einfo.ExceptionInfo.__init__', 'einfo.ExceptionWithTraceback.__reduce__', 'einfo.rebuild_exc')}
 REPLAYERS['pool.Worker.workloop'] = 'replayers/workloop.py'
+REPLAYERS['pool.MaybeEncodingError.__init__'] = 'replayers/einfo_roundtrip.py'
 
 ASSUMPTIONS = [
     'pickle rebuilds an object from a reduce value (callable, args, state) by calling callable(*args) and setting __dict__ to '
@@ -100,6 +101,31 @@ def sp_reduces(ex, result, clsname, selfobj):
 
 def sp_remote_tb(ex, tb):
     return SV(ValS, box(VExc('RemoteTraceback', [tb])))
+
+
+def encoding_error_contract(w):
+    """MaybeEncodingError.__init__: what the record of an unserialisable result carries -- two strings (the reprs), also as
+    the exception's own arguments, so that the record pickles whatever the serialiser raised and whatever the result was"""
+    Repr = z3.Function('repr_of', Val, Val)
+    w.classes['g'].fields.update({'mee_args0': ValS, 'mee_args1': ValS, 'mee_inits': IntS})
+    w.cls('MEE', module='pool', pyname='MaybeEncodingError', fields={'exc': ValS, 'value': ValS})
+    w.spec_funcs['repr_of'] = lambda ex, v: SV(ValS, Repr(v.e))
+
+    def super_init(ex, args, kw):
+        gset(ex, 'mee_inits', SV(IntS, gget(ex, 'mee_inits').e + 1))
+        a = [coerce(ex.path, x, ValS) for x in args[1:]]
+        gset(ex, 'mee_args0', a[0] if len(a) > 0 else SV(ValS, z3.Const('no_arg', Val)))
+        gset(ex, 'mee_args1', a[1] if len(a) > 1 else SV(ValS, z3.Const('no_arg', Val)))
+        return SNone()
+    return Contract(
+        'pool.MaybeEncodingError.__init__', prop=PROP, params={'self': ref('MEE'), 'exc': ValS, 'value': ValS},
+        externals={'builtins.repr': lambda ex, a, k: SV(ValS, Repr(coerce(ex.path, a[0], ValS).e)), 'super.__init__': super_init},
+        requires={'fresh': 'g.mee_inits == 0'},
+        modifies=['self.exc', 'self.value', 'g.mee_args0', 'g.mee_args1', 'g.mee_inits'],
+        ensures={'carries_the_text_of_the_error_and_of_the_result': 'self.exc == repr_of(exc) and self.value == repr_of(value)',
+                 'its_own_arguments_are_those_two_strings': 'g.mee_inits == 1 and g.mee_args0 == repr_of(exc) and '
+                                                            'g.mee_args1 == repr_of(value)'},
+    )
 
 
 def build(w):
@@ -226,7 +252,7 @@ def build(w):
     # the worker side of the last clause: a result that cannot be serialised is answered with the encoding-error record
     # on that job; the loop is only left by an exception if that record could not be sent either
     W.declare_worker(w)
-    return [code_init, frame_init, trunc_init, tb_init] + reduces + [einfo_init, ewt_reduce, rebuild, W.workloop_contract(PROP)]
+    return [code_init, frame_init, trunc_init, tb_init] + reduces + [einfo_init, ewt_reduce, rebuild, W.workloop_contract(PROP), encoding_error_contract(w)]
 
 
 MANIFEST_ENTRY = {
@@ -242,7 +268,8 @@ MANIFEST_ENTRY = {
             'text as its cause.  Worker.workloop (shared contract with C03/C09, loop invariant over any number of jobs): when '
             'the put of a result fails with any Exception, the next thing sent is (False, encoding-error record) for that same '
             'job, and an exception leaves the loop only if that second put failed as well -- an unserialisable result alone '
-            'neither kills the worker nor loses the job.',
+            'neither kills the worker nor loses the job.  MaybeEncodingError.__init__ keeps only the two reprs -- as attributes '
+            'and as the exception\'s own arguments -- so the record itself pickles whatever the serialiser raised.',
     'note': 'pickle and traceback themselves are assumed contracts (round-trip stability follows from "whole __dict__" by '
             'induction); the replayer formats and re-pickles rebuilt records at run time as a bounded cross-check.  The '
             'queue put of the worker is an assumed contract: it delivers, raises some Exception, or is interrupted by the '
